@@ -791,3 +791,8 @@ def rebuild_import_time_objects():
     import okdmr.dmrlib.etsi.crc.crc8 as c8, okdmr.dmrlib.etsi.crc.crc9 as c9, okdmr.dmrlib.etsi.crc.crc16 as c16, okdmr.dmrlib.etsi.crc.crc32 as c32
     for mod, cls, conf in ((c8, "CRC8", crc.Crc8.ETSI_DMR), (c9, "CRC9", crc.Crc9.ETSI_DMR), (c16, "CRC16", crc.Crc16.ETSI_DMR), (c32, "CRC32", crc.Crc32.ETSI_DMR)):
         getattr(mod, cls).CALC = crc.BitCrcCalculator(table_based=True, configuration=conf)
+    # class-level / module-level dicts (constant tables; caches a change may add) accept symbolic keys and are reset per path
+    from . import symdict
+    symdict.install()
+    symdict.install_defaults()
+    symdict.install_bitarrays()
